@@ -863,6 +863,12 @@ class DBusObjectHandler :
                 else:
                     return_values = [return_values]
 
+                if m.sigOut and len(return_values) != m.nret:
+                    raise TypeError(
+                        '%s returned %d values, signature "%s" requires %d' %
+                        (msg.member, len(return_values), m.sigOut, m.nret)
+                    )
+
                 r = message.MethodReturnMessage(
                     msg.serial,
                     body=return_values,
